@@ -21,6 +21,18 @@ def gen(ck, n):
         p = proggen.defuse_program(ck.rng, n + i + 1)
         p["xf"] = ck.rng.choice([["dce"], ["dce"], ["dce", "simplify"], ["simplify", "dce", "simplify"], ["lsa", "dce"]])
         ps.append(p)
+    for i in range(max(16, n // 8)):
+        p = proggen.defuse_bool_program(ck.rng, 4 * n + i + 1)
+        p["xf"] = ck.rng.choice([["dce"], ["dce"], ["dce", "simplify"], ["simplify", "dce", "simplify"]])
+        ps.append(p)
+    # programs with boolean statements, conversions and external calls (2 integers, 2 booleans)
+    for i in range(max(20, n // 6)):
+        p = proggen.program(ck.rng, 3 * n + i + 1, asserts=True, nints=2, nbools=2, profile="c17b", nstmts=(1, 3))
+        outs = sorted(ck.rng.sample([1, 2, 3, 4], ck.rng.randint(1, 2)))
+        p["fn"] = {"name": "f", "in": [], "out": outs}
+        p["outs"] = outs
+        p["xf"] = ck.rng.choice(XFS)
+        ps.append(p)
     # array programs (liveness-driven DCE on array variables: stores flagged strong or weak, copies, loads)
     for i in range(max(12, n // 8)):
         p = proggen.array_live_program(ck.rng, 2 * n + i + 1)
@@ -43,6 +55,8 @@ def explore(ck, label, ps):
         q = {"id": p["id"], "nv": p.get("nv", 3), "outs": p["outs"], "init": p["init"], "xfnames": p["xf"]}
         if "ncells" in p:       # array programs: kinds of the variables and number of cells per array
             q["kinds"], q["ncells"] = p["kinds"], p["ncells"]
+        elif "bool" in p.get("kinds", []):
+            q["kinds"] = p["kinds"]
         if "err" in r or any(st["op"] == "unknown" for b in r["cfg"]["blocks"] for st in b["stmts"]):
             q.update({"err": 1, "orig": {"entry": 0, "exit": 0, "blocks": [], "labels": []}, "xf": {"entry": 0, "exit": 0, "blocks": [], "labels": []}})
             ck.cov["no_claim_crash"] = ck.cov.get("no_claim_crash", 0) + 1
